@@ -151,7 +151,13 @@ WellFormed(e) ==
 (* digest and therefore not available here; the pattern is kept as a set   *)
 (* of <<path, class>> pairs, which carries the same information.           *)
 Class(e) == IF IsObscured(e) THEN e[1] ELSE "clear"
-Pattern(e) == {<<p, Class(At(e, p)), Dg(At(e, p))>> : p \in Paths(e)}
+(* Positions are named by what identity can see: "first child" (subject, predicate, wrapped content) or
+   "the other child with digest d" (an assertion, the object).  A node [X, Y] and an assertion {X: Y}
+   have the same digest image (the format's one structural collision) and the same positions: with
+   equal obscuration they are identical, as the property says and as the code answers. *)
+NormPath(e, p) == [i \in 1..Len(p) |-> IF p[i][1] \in {"s", "p", "w"} THEN <<"c1">>
+                                        ELSE <<"c2", Dg(At(e, SubSeq(p, 1, i)))>>]
+Pattern(e) == {<<NormPath(e, p), Class(At(e, p)), Dg(At(e, p))>> : p \in Paths(e)}
 
 (* Clear form: the envelope with every obscured element that carries its   *)
 (* content (enc with known plaintext, comp) replaced by that content.       *)
